@@ -136,6 +136,56 @@ func selectorFor(f *gen.Func, k []uint64) reflect.Value {
 	return sel
 }
 
+// looseSelector builds a selector that names 1..2 scalar elements (part of a multi-key identifier
+// or elements outside the identifier) with values of an existing item where possible: it can match
+// several items. ok is false if the selectors type offers no such element.
+func looseSelector(t *rapid.T, f *gen.Func, state []reflect.Value, o gen.Opt, label string) (sel reflect.Value, ok bool) {
+	var cand []string
+	for i := 0; i < f.SelectorsType.NumField(); i++ {
+		sf := f.SelectorsType.Field(i)
+		itf, has := f.ItemType.FieldByName(sf.Name)
+		if !has || sf.Type != itf.Type || sf.Type.Kind() != reflect.Ptr {
+			continue
+		}
+		switch sf.Type.Elem().Kind() {
+		case reflect.Uint, reflect.Uint8, reflect.Uint16, reflect.Uint32, reflect.Uint64, reflect.String, reflect.Bool:
+			cand = append(cand, sf.Name)
+		}
+	}
+	if len(cand) == 0 {
+		return sel, false
+	}
+	sel = reflect.New(f.SelectorsType)
+	var donor reflect.Value
+	if len(state) > 0 && rapid.IntRange(0, 3).Draw(t, label+".donor?") != 0 {
+		donor = state[rapid.IntRange(0, len(state)-1).Draw(t, label+".donor")]
+	}
+	n := rapid.IntRange(1, min(2, len(cand))).Draw(t, label+".fields#")
+	for i := 0; i < n; i++ {
+		name := rapid.SampledFrom(cand).Draw(t, fmt.Sprintf("%s.field%d", label, i))
+		dst := sel.Elem().FieldByName(name)
+		if donor.IsValid() && !donor.FieldByName(name).IsNil() {
+			p := reflect.New(dst.Type().Elem())
+			p.Elem().Set(donor.FieldByName(name).Elem())
+			dst.Set(p)
+			continue
+		}
+		isKey := false
+		for _, k := range f.KeyFields {
+			isKey = isKey || k == name
+		}
+		if isKey {
+			gen.SetKey(sel.Elem(), name, rapid.SampledFrom([]uint64{0, 1, 2, 3}).Draw(t, fmt.Sprintf("%s.key%d", label, i)))
+		} else {
+			dst.Set(gen.Ptr(t, dst.Type().Elem(), o, fmt.Sprintf("%s.value%d", label, i)))
+		}
+	}
+	return sel, true
+}
+
+// Matches counts the items of state the selector matches.
+func Matches(sel reflect.Value, state []reflect.Value) int { return matches(sel, state) }
+
 func matches(sel reflect.Value, state []reflect.Value) int {
 	n := 0
 	for _, it := range state {
@@ -219,7 +269,14 @@ func Update(t *rapid.T, f *gen.Func, state []reflect.Value, shape string, o gen.
 	if needSel {
 		selKey = pickKey(t, f, state, label+".sel")
 		sel = selectorFor(f, selKey)
-		if matches(sel, state) > 1 {
+		deleteOnly := shape == DeleteSelector || shape == DeleteSelElements
+		if o.LooseSelectors && deleteOnly && rapid.IntRange(0, 2).Draw(t, label+".loose") == 0 {
+			// a delete filter removes (or clears the named elements of) all matching items
+			if ls, ok := looseSelector(t, f, state, o, label+".loosesel"); ok {
+				sel = ls
+			}
+		}
+		if matches(sel, state) > 1 && !(o.LooseSelectors && deleteOnly) {
 			shape = PartialIDs
 		}
 	}
